@@ -334,3 +334,315 @@ Proof.
   rewrite (RecaseUnusedVar.unusedvar_exact _ _ Hs Hd), (RecaseLints.ret_type_lint_eq _ _ Hs),
           (v2_walk_sim t t' (conj Hs Hd)). reflexivity.
 Qed.
+
+(* ====================================================================================== *)
+(* 4. one document: go-to-definition and completion (Model/DefTree.v)                     *)
+(* ====================================================================================== *)
+
+(* ---------- list helpers ---------- *)
+
+Lemma forallb_rel {A B} (R : A -> B -> Prop) (f : A -> bool) (g : B -> bool) l l' :
+  Forall2 R l l' -> (forall x y, R x y -> f x = g y) -> forallb f l = forallb g l'.
+Proof. intros H Hf. induction H as [|x y l l' Hxy _ IH]; [reflexivity|]. cbn [forallb]. rewrite (Hf _ _ Hxy), IH. reflexivity. Qed.
+
+Lemma existsb_rel {A B} (R : A -> B -> Prop) (f : A -> bool) (g : B -> bool) l l' :
+  Forall2 R l l' -> (forall x y, R x y -> f x = g y) -> existsb f l = existsb g l'.
+Proof. intros H Hf. induction H as [|x y l l' Hxy _ IH]; [reflexivity|]. cbn [existsb]. rewrite (Hf _ _ Hxy), IH. reflexivity. Qed.
+
+Lemma filter_rel {A B} (R : A -> B -> Prop) (f : A -> bool) (g : B -> bool) l l' :
+  Forall2 R l l' -> (forall x y, R x y -> f x = g y) -> Forall2 R (filter f l) (filter g l').
+Proof.
+  intros H Hf. induction H as [|x y l l' Hxy _ IH]; [constructor|]. cbn [filter]. rewrite <- (Hf _ _ Hxy).
+  destruct (f x); [constructor; assumption|exact IH].
+Qed.
+
+Lemma find_rel {A B} (R : A -> B -> Prop) (f : A -> bool) (g : B -> bool) l l' :
+  Forall2 R l l' -> (forall x y, R x y -> f x = g y) -> opt_rel R (find f l) (find g l').
+Proof.
+  intros H Hf. induction H as [|x y l l' Hxy _ IH]; [constructor|]. cbn [find]. rewrite <- (Hf _ _ Hxy).
+  destruct (f x); [constructor; assumption|exact IH].
+Qed.
+
+Lemma Forall2_map2 {A B C D} (R : A -> B -> Prop) (S : C -> D -> Prop) (f : A -> C) (g : B -> D) l l' :
+  Forall2 R l l' -> (forall x y, R x y -> S (f x) (g y)) -> Forall2 S (map f l) (map g l').
+Proof. intros H Hf. induction H; cbn [map]; constructor; auto. Qed.
+
+Lemma Forall2_rev {A B} (R : A -> B -> Prop) l l' : Forall2 R l l' -> Forall2 R (rev l) (rev l').
+Proof. induction 1; cbn [rev]; [constructor|]. apply Forall2_app2; [assumption|]. constructor; [assumption|constructor]. Qed.
+
+Lemma Forall2_firstn {A B} (R : A -> B -> Prop) n l l' : Forall2 R l l' -> Forall2 R (firstn n l) (firstn n l').
+Proof. intro H. revert n. induction H; intros [|n]; cbn [firstn]; constructor; auto. Qed.
+
+Lemma Forall2_length' {A B} (R : A -> B -> Prop) l l' : Forall2 R l l' -> length l = length l'.
+Proof. induction 1; cbn [length]; congruence. Qed.
+
+Lemma Forall2_nth {A B} (R : A -> B -> Prop) l l' i : Forall2 R l l' -> opt_rel R (nth_error l i) (nth_error l' i).
+Proof. intro H. revert i. induction H; intros [|i]; cbn [nth_error]; try constructor; auto. Qed.
+
+Lemma Forall2_tl {A B} (R : A -> B -> Prop) l l' : Forall2 R l l' -> Forall2 R (tl l) (tl l').
+Proof. destruct 1; cbn [tl]; [constructor|assumption]. Qed.
+
+(* ---------- the tables as scopes ---------- *)
+
+Lemma scope_of_sim T T' : table_sim T T' -> scope_of T = scope_of T'.
+Proof. intros (A & B & _). unfold scope_of, cls_str. rewrite A, B. reflexivity. Qed.
+
+Lemma cls_str_sim T T' : table_sim T T' -> cls_str T = cls_str T'.
+Proof. intros (A & _). unfold cls_str. rewrite A. reflexivity. Qed.
+
+Lemma find_in_sim T T' id id' : table_sim T T' -> ci_eq id id' -> find_in T id = find_in T' id'.
+Proof.
+  intros HT Hi. unfold find_in, sym_at. rewrite <- (scope_of_sim _ _ HT), (scope_find_ci _ id id' Hi).
+  destruct HT as (_ & B & _). rewrite B. reflexivity.
+Qed.
+
+Definition hit_sim (h h' : table * asym) : Prop := table_sim (fst h) (fst h') /\ snd h = snd h'.
+
+Lemma lookup_sim ch ch' id id' : Forall2 table_sim ch ch' -> ci_eq id id' -> opt_rel hit_sim (lookup ch id) (lookup ch' id').
+Proof.
+  intros H Hi. induction H as [|T T' l l' HT _ IH]; [constructor|]. cbn [lookup].
+  rewrite <- (find_in_sim _ _ _ _ HT Hi). destruct (find_in T id); [|exact IH]. constructor. split; [exact HT|reflexivity].
+Qed.
+
+Lemma lookup_all_sim ch ch' id id' : Forall2 table_sim ch ch' -> ci_eq id id' -> Forall2 hit_sim (lookup_all ch id) (lookup_all ch' id').
+Proof.
+  intros H Hi. induction H as [|T T' l l' HT _ IH]; [constructor|]. cbn [lookup_all].
+  rewrite <- (find_in_sim _ _ _ _ HT Hi). apply Forall2_app2; [|exact IH].
+  destruct (find_in T id); constructor; [|constructor]. split; [exact HT|reflexivity].
+Qed.
+
+Lemma class_level_sim ch ch' : Forall2 table_sim ch ch' -> Forall2 table_sim (class_level_t ch) (class_level_t ch').
+Proof.
+  intro H. induction H as [|T T' l l' HT Hl IH]; [constructor|]. cbn [class_level_t].
+  destruct Hl as [|P P' r r' HP Hr]; [constructor; [exact HT|constructor]|].
+  destruct HT as (A & HT'). destruct HP as (B & HP'). rewrite <- A, <- B.
+  destruct (DefTree.opt_str_eqb (t_cls P) (t_cls T)); [exact IH|].
+  constructor; [split; assumption|]. constructor; [split; assumption|exact Hr].
+Qed.
+
+Lemma map_scope_of_sim ch ch' : Forall2 table_sim ch ch' -> map scope_of ch = map scope_of ch'.
+Proof. intro H. apply Forall2_map_eq. eapply Forall2_impl; [|exact H]. apply scope_of_sim. Qed.
+
+Lemma labels_lhs_sim ch ch' : Forall2 table_sim ch ch' -> labels_lhs ch = labels_lhs ch'.
+Proof. intro H. unfold labels_lhs. rewrite (map_scope_of_sim _ _ H). reflexivity. Qed.
+Lemma labels_rhs_sim ch ch' : Forall2 table_sim ch ch' -> labels_rhs ch = labels_rhs ch'.
+Proof. intro H. unfold labels_rhs. rewrite (map_scope_of_sim _ _ H). reflexivity. Qed.
+
+(* ---------- node predicates ---------- *)
+
+Lemma is_header_node_sim n n' : nsx n n' -> is_header_node n = is_header_node n'.
+Proof. intro H. unfold is_header_node. rewrite !(nsx_is_kind _ _ _ H). reflexivity. Qed.
+Lemma is_method_node_sim n n' : nsx n n' -> is_method_node n = is_method_node n'.
+Proof. intro H. unfold is_method_node. rewrite (nsx_kind _ _ H). reflexivity. Qed.
+Lemma is_member_decl_sim n n' : nsx n n' -> is_member_decl n = is_member_decl n'.
+Proof. intro H. unfold is_member_decl. rewrite !(nsx_is_kind _ _ _ H). reflexivity. Qed.
+
+Lemma is_dot_sim n n' : nsx n n' -> is_dot n = is_dot n'.
+Proof.
+  intro H. unfold is_dot. rewrite (nsx_is_kind _ _ _ H).
+  destruct (attr_tok_rel K_op _ _ (nsx_sim _ _ H)) as [|o o' Ho]; [reflexivity|]. rewrite (ts_ty _ _ Ho). reflexivity.
+Qed.
+
+Lemma first_child_sim n n' : nsx n n' -> opt_rel nsx (first_child n) (first_child n').
+Proof. intro H. unfold first_child. destruct (nsx_children _ _ H); constructor; assumption. Qed.
+
+Lemma has_parent_node_sim n n' : nsx n n' -> has_parent_node n = has_parent_node n'.
+Proof.
+  intro H. unfold has_parent_node. rewrite (nsx_is_kind _ _ _ H).
+  destruct (attr_tok_rel K_parent _ _ (nsx_sim _ _ H)); reflexivity.
+Qed.
+
+Lemma has_uses_node_sim n n' : nsx n n' -> has_uses_node n = has_uses_node n'.
+Proof.
+  intro H. unfold has_uses_node. rewrite (nsx_is_kind _ _ _ H).
+  destruct (uses_names_sim _ _ (nsx_sim _ _ H)); reflexivity.
+Qed.
+
+Lemma all_nodes_sim t t' : nsx t t' -> Forall2 nsx (all_nodes t) (all_nodes t').
+Proof. intro H. unfold all_nodes. eapply Forall2_map2; [apply visit_seq_sim; exact H|]. intros x y [_ A]. exact A. Qed.
+
+Lemma foreign_parent_sim t t' : nsx t t' -> foreign_parent t = foreign_parent t'.
+Proof. intro H. unfold foreign_parent. apply (existsb_rel nsx); [apply all_nodes_sim; exact H|apply has_parent_node_sim]. Qed.
+
+Lemma foreign_sim t t' : nsx t t' -> foreign t = foreign t'.
+Proof.
+  intro H. unfold foreign. rewrite (foreign_parent_sim _ _ H). f_equal.
+  apply (existsb_rel nsx); [apply all_nodes_sim; exact H|apply has_uses_node_sim].
+Qed.
+
+Lemma flat_methods_sim t t' : nsx t t' -> flat_methods t = flat_methods t'.
+Proof.
+  intro H. unfold flat_methods. rewrite (is_method_node_sim _ _ H). f_equal.
+  apply (forallb_rel nsx); [apply nsx_children; exact H|]. intros c c' Hc.
+  apply (forallb_rel vsim); [apply below_sim; assumption|]. intros p p' [_ Hp]. rewrite (is_method_node_sim _ _ Hp). reflexivity.
+Qed.
+
+(* ---------- the way down ---------- *)
+
+Definition step_sim (s s' : nat * node) : Prop := fst s = fst s' /\ nsx (snd s) (snd s').
+
+Lemma descend_eq p n : descend p n =
+  (fix go (i : nat) (l : list node) : list (nat * node) :=
+     match l with
+     | [] => []
+     | c :: l' => if contains (nrange c) p then (i, c) :: descend p c else go (S i) l'
+     end) O (nchildren n).
+Proof. destruct n; reflexivity. Qed.
+
+Lemma descend_sim p : forall n n', nsx n n' -> Forall2 step_sim (descend p n) (descend p n').
+Proof.
+  intro n. pattern n. apply node_ind'. clear n. intros k id raw rg at_ ch IHn n' Hn.
+  rewrite !descend_eq. pose proof (nsx_children _ _ Hn) as HC. cbn [nchildren] in *. clear Hn. generalize O.
+  induction HC as [|c c' l l' Hc _ IH]; intro i; [constructor|]. inversion IHn; subst.
+  rewrite <- (nsx_range _ _ Hc). destruct (contains (nrange c) p); [|apply IH; assumption].
+  constructor; [split; [reflexivity|exact Hc]|auto].
+Qed.
+
+Lemma path_up_sim p t t' : nsx t t' -> Forall2 step_sim (path_up p t) (path_up p t').
+Proof.
+  intro H. unfold path_up. apply Forall2_rev. constructor; [split; [reflexivity|exact H]|apply descend_sim; exact H].
+Qed.
+
+Lemma in_method_sim s s' : Forall2 step_sim s s' -> in_method s = in_method s'.
+Proof. destruct 1 as [|[i c] [i' c'] l l' [_ Hc] _]; [reflexivity|]. cbn [in_method]. apply is_method_node_sim. exact Hc. Qed.
+
+Lemma chain_for_sim t t' s s' : nsx t t' -> Forall2 step_sim s s' ->
+  opt_rel (Forall2 table_sim) (chain_for t s) (chain_for t' s').
+Proof.
+  intros Ht Hs. unfold chain_for. cbv zeta. pose proof (annotate_sim false t t' Ht) as (A & _ & C).
+  assert (R1 : Forall2 table_sim [st_root (annotate false t)] [st_root (annotate false t')]) by (constructor; [exact A|constructor]).
+  destruct Hs as [|[i c] [i' c'] l l' [Hi Hc] _]; [constructor; exact R1|]. cbn [fst snd] in Hi, Hc. subst i'.
+  rewrite <- (is_method_node_sim _ _ Hc). destruct (is_method_node c); [|constructor; exact R1].
+  assert (L : length (filter is_method_node (firstn i (nchildren t))) = length (filter is_method_node (firstn i (nchildren t')))).
+  { apply (Forall2_length' nsx). apply filter_rel; [apply Forall2_firstn; apply nsx_children; exact Ht|apply is_method_node_sim]. }
+  rewrite <- L. destruct (Forall2_nth _ _ _ (length (filter is_method_node (firstn i (nchildren t)))) C) as [|m m' Hm]; constructor.
+  constructor; [exact Hm|exact R1].
+Qed.
+
+(* ---------- get_id ---------- *)
+
+Lemma tok_contains_sim k n n' p : node_sim n n' -> tok_contains (attr_tok k n) p = tok_contains (attr_tok k n') p.
+Proof. intro H. destruct (attr_tok_rel k _ _ H) as [|a b Hab]; [reflexivity|]. cbn [tok_contains]. rewrite (ts_range _ _ Hab). reflexivity. Qed.
+
+Lemma tok_val_sim k n n' : node_sim n n' -> opt_rel ci_eq (option_map tval (attr_tok k n)) (option_map tval (attr_tok k n')).
+Proof. intro H. destruct (attr_tok_rel k _ _ H) as [|a b Hab]; constructor. apply Hab. Qed.
+
+Lemma get_id_sim n n' p : nsx n n' -> opt_rel ci_eq (get_id n p) (get_id n' p).
+Proof.
+  intro H. pose proof (nsx_sim _ _ H) as Hs. unfold get_id. rewrite <- !(nsx_is_kind _ _ _ H), <- (is_member_decl_sim _ _ H).
+  destruct (is_kind KAstTerminal n || is_kind KAstTypeBasic n || is_kind KAstTypeReference n || is_kind KAstMethodCall n);
+    [constructor; apply nsx_ci; exact H|].
+  rewrite <- !(tok_contains_sim _ _ _ p Hs).
+  destruct (is_kind KAstClass n); [destruct (tok_contains (attr_tok K_parent n) p); [apply tok_val_sim; exact Hs|constructor]|].
+  destruct (is_member_decl n); [|constructor].
+  destruct (tok_contains (attr_tok K_ident n) p); [apply tok_val_sim; exact Hs|constructor].
+Qed.
+
+(* ---------- links ---------- *)
+
+Lemma def_single_sim t t' stem ch ch' o o' : nsx t t' -> Forall2 table_sim ch ch' -> opt_rel ci_eq o o' ->
+  def_single t stem ch o = def_single t' stem ch' o'.
+Proof.
+  intros Ht Hc Ho. unfold def_single. destruct Ho as [|id id' Hi]; [reflexivity|].
+  destruct (lookup_sim _ _ _ _ Hc Hi) as [|[T a] [T' a'] [HT Ha]]; [rewrite (foreign_sim _ _ Ht); reflexivity|].
+  cbn [fst snd] in HT, Ha. subst a'. rewrite (cls_str_sim _ _ HT). reflexivity.
+Qed.
+
+Lemma def_all_sim t t' stem ch ch' o o' : nsx t t' -> Forall2 table_sim ch ch' -> opt_rel ci_eq o o' ->
+  def_all t stem ch o = def_all t' stem ch' o'.
+Proof.
+  intros Ht Hc Ho. unfold def_all. destruct Ho as [|id id' Hi]; [reflexivity|].
+  rewrite <- (foreign_parent_sim _ _ Ht). destruct (foreign_parent t); [reflexivity|]. cbv zeta.
+  pose proof (lookup_all_sim _ _ _ _ Hc Hi) as HL.
+  rewrite (forallb_rel hit_sim (fun h => indexed1 stem (cls_str (fst h))) (fun h => indexed1 stem (cls_str (fst h))) _ _ HL)
+    by (intros x y [A _]; rewrite (cls_str_sim _ _ A); reflexivity).
+  replace (map (fun h => link_of (snd h)) (lookup_all ch' id')) with (map (fun h => link_of (snd h)) (lookup_all ch id)); [reflexivity|].
+  apply Forall2_map_eq. eapply Forall2_impl; [|exact HL]. intros x y [_ A]. rewrite A. reflexivity.
+Qed.
+
+(* ---------- the operand whose type is the document's own class ---------- *)
+
+Lemma the_header_sim t t' : nsx t t' -> opt_rel nsx (the_header t) (the_header t').
+Proof.
+  intro H. unfold the_header.
+  pose proof (filter_rel nsx is_header_node is_header_node _ _ (all_nodes_sim _ _ H) is_header_node_sim) as F.
+  destruct F as [|x x' l l' _ Hl]; [constructor|]. destruct Hl; [|constructor].
+  pose proof (filter_rel nsx (fun c => is_header_node c || is_method_node c) (fun c => is_header_node c || is_method_node c)
+                _ _ (nsx_children _ _ H)) as G.
+  destruct G as [|h h' r r' Hh _]; [|constructor|].
+  - intros a b Hab. rewrite (is_header_node_sim _ _ Hab), (is_method_node_sim _ _ Hab). reflexivity.
+  - rewrite <- (is_header_node_sim _ _ Hh). destruct (is_header_node h); constructor. exact Hh.
+Qed.
+
+Lemma ci_eqb_sim a a' b b' : ci_eq a a' -> ci_eq b b' -> ci_eqb a b = ci_eqb a' b'.
+Proof. unfold ci_eq, ci_eqb. intros -> ->. reflexivity. Qed.
+
+Lemma forallb_ext' {A} (f g : A -> bool) l : (forall x, f x = g x) -> forallb f l = forallb g l.
+Proof. intro H. induction l as [|x l IH]; [reflexivity|]. cbn [forallb]. rewrite H, IH. reflexivity. Qed.
+
+Lemma name_free_sim t t' L L' : nsx t t' -> ci_eq L L' -> name_free t L = name_free t' L'.
+Proof.
+  intros Ht HL. unfold name_free. cbv zeta. pose proof (annotate_sim false t t' Ht) as (A & _ & C).
+  apply (forallb_rel table_sim); [constructor; assumption|]. intros T T' (_ & B & _). rewrite B.
+  apply forallb_ext'. intro a. rewrite (ci_eqb_sim _ _ _ _ (ci_eq_refl (a_name a)) HL). reflexivity.
+Qed.
+
+Lemma header_name_eq h h' : nsx h h' -> is_header_node h = true -> nident h = nident h'.
+Proof.
+  intros H Hh. apply (RecaseLints.nsx_name _ _ H). unfold is_header_node, is_kind in Hh. apply orb_true_iff in Hh.
+  destruct Hh as [E|E]; apply ak_eqb_eq in E; rewrite E; reflexivity.
+Qed.
+
+Lemma the_header_is t h : the_header t = Some h -> is_header_node h = true.
+Proof.
+  unfold the_header. destruct (filter is_header_node (all_nodes t)) as [|x [|y l]]; try discriminate.
+  destruct (filter (fun c => is_header_node c || is_method_node c) (nchildren t)) as [|h0 r]; [discriminate|].
+  destruct (is_header_node h0) eqn:E; [|discriminate]. intro H. inversion H; subst. exact E.
+Qed.
+
+Lemma own_entity_sim t t' l l' : nsx t t' -> nsx l l' -> own_entity t l = own_entity t' l'.
+Proof.
+  intros Ht Hl. unfold own_entity. rewrite <- (nsx_is_kind _ _ _ Hl). destruct (is_kind KAstTerminal l); [|reflexivity].
+  pose proof (the_header_is t) as HI. destruct (the_header_sim _ _ Ht) as [|h h' Hh]; [reflexivity|]. cbv zeta.
+  pose proof (header_name_eq _ _ Hh (HI _ eq_refl)) as En.
+  rewrite <- (name_free_sim _ _ _ _ Ht (nsx_ci _ _ Hl)), <- (nsx_is_kind _ _ _ Hh), <- En,
+          <- (ci_eqb_sim _ _ _ _ (nsx_ci _ _ Hl) (ci_eq_refl (nident h))), <- (ci_eqb_sim _ _ _ _ (nsx_ci _ _ Hl) (ci_eq_refl s_self)).
+  reflexivity.
+Qed.
+
+(* DEFTREE: the same answer at every position, for every file stem *)
+Theorem deftree_recase t t' stem p : ref_sim t t' ->
+  definition t stem p = definition t' stem p /\ completion t stem p = completion t' stem p.
+Proof.
+  intro H. apply ref_sim_nsx in H. split.
+  - unfold definition. rewrite <- (flat_methods_sim _ _ H). destruct (negb (flat_methods t)); [reflexivity|]. cbv zeta.
+    pose proof (descend_sim p _ _ H) as HS. pose proof (path_up_sim p _ _ H) as HP.
+    destruct (chain_for_sim _ _ _ _ H HS) as [|ch ch' Hc]; [reflexivity|].
+    destruct HP as [|[idx enc] [idx' enc'] up up' [Hi He] Hup]; [reflexivity|]. cbn [fst snd] in Hi, He. subst idx'.
+    pose proof (get_id_sim _ _ p He) as Hid. rewrite <- (is_member_decl_sim _ _ He).
+    destruct Hup as [|[j q] [j' q'] r r' [_ Hq] _]; cbn [snd] in *.
+    + destruct (is_member_decl enc); [apply def_all_sim|apply def_single_sim]; assumption.
+    + rewrite <- (is_dot_sim _ _ Hq), <- (is_method_node_sim _ _ Hq). destruct (is_dot q).
+      * destruct idx; [apply def_single_sim; assumption|].
+        destruct (first_child_sim _ _ Hq) as [|l l' Hl]; [reflexivity|].
+        rewrite <- (own_entity_sim _ _ _ _ H Hl). destruct (own_entity t l); [|reflexivity].
+        rewrite <- (in_method_sim _ _ HS). destruct (in_method (descend p t)); [|reflexivity].
+        destruct (indexed1 stem s); [|reflexivity]. apply def_all_sim; [assumption|apply class_level_sim; assumption|assumption].
+      * destruct (is_method_node q && Nat.eqb idx 0); [apply def_all_sim; [assumption|apply class_level_sim; assumption|assumption]|].
+        destruct (is_member_decl enc); [apply def_all_sim|apply def_single_sim]; assumption.
+  - unfold completion. rewrite <- (flat_methods_sim _ _ H). destruct (negb (flat_methods t)); [reflexivity|]. cbv zeta.
+    pose proof (descend_sim p _ _ H) as HS. pose proof (path_up_sim p _ _ H) as HP.
+    destruct (chain_for_sim _ _ _ _ H HS) as [|ch ch' Hc]; [reflexivity|].
+    destruct HP as [|[idx enc] [idx' enc'] up up' [Hi He] Hup]; [reflexivity|]. cbn [fst snd] in Hi, He. subst idx'.
+    assert (LHS : compl_lhs t ch = compl_lhs t' ch').
+    { unfold compl_lhs. rewrite (foreign_parent_sim _ _ H), (labels_lhs_sim _ _ Hc). reflexivity. }
+    assert (RHS : forall o o', opt_rel nsx o o' -> compl_rhs t stem (descend p t) ch o = compl_rhs t' stem (descend p t') ch' o').
+    { intros o o' Ho. unfold compl_rhs. destruct Ho as [|l l' Hl]; [reflexivity|].
+      rewrite <- (own_entity_sim _ _ _ _ H Hl). destruct (own_entity t l); [|reflexivity].
+      rewrite <- (in_method_sim _ _ HS), <- (foreign_parent_sim _ _ H), (labels_rhs_sim _ _ (class_level_sim _ _ Hc)). reflexivity. }
+    rewrite <- (is_dot_sim _ _ He). destruct (is_dot enc).
+    + destruct (attr_tok_rel K_op _ _ (nsx_sim _ _ He)) as [|o o' Ho]; [reflexivity|]. rewrite <- (ts_range _ _ Ho).
+      destruct (pos_leb (rend (trange o)) p); [apply RHS; apply first_child_sim; exact He|exact LHS].
+    + destruct Hup as [|[j q] [j' q'] r r' [_ Hq] _]; [exact LHS|]. cbn [snd] in Hq. rewrite <- (is_dot_sim _ _ Hq).
+      destruct (is_dot q); [|exact LHS]. destruct idx; [exact LHS|]. apply RHS. apply first_child_sim. exact Hq.
+Qed.
